@@ -1165,6 +1165,7 @@ func wideTrees(c *Ctx) {
 			hub.Children = append(hub.Children, &newick.Node{Name: fmt.Sprint(i)})
 		}
 		for _, pre := range []bool{true, false} {
+			c.begin("traversal (pre=%v) of a tree containing a node with %d children", pre, w)
 			it := root.PostOrder()
 			if pre {
 				it = root.PreOrder()
